@@ -810,9 +810,17 @@ func rC09Readers(w *World, r *Report) {
 				ru.Bad("reader/"+n, w.IPos(u.Instr), "requireOrder is read outside the stop tests / inheritance copy (or its value flows into a computation): parsing before the stop point may depend on it")
 			}
 		case "write":
-			if n == "(*getoptions.GetOpt).SetRequireOrder" || n == "(*getoptions.GetOpt).NewCommand" || strings.HasPrefix(n, "(*getoptions.GetOpt).HelpCommand") {
+			// the setter on the receiver's own node, or the initialisation of a node that is being created (a fresh
+			// literal inheriting from its parent); an existing node is never rewritten
+			_, fresh := rootOfAddr(u.Addr.X).(*ssa.Alloc)
+			switch {
+			case n == "(*getoptions.GetOpt).SetRequireOrder":
 				ru.Present("writer/"+n, w.IPos(u.Instr), "expected writer")
-			} else {
+			case (n == "(*getoptions.GetOpt).NewCommand" || strings.HasPrefix(n, "(*getoptions.GetOpt).HelpCommand")) && fresh:
+				ru.Present("writer/"+n, w.IPos(u.Instr), "expected writer: initialisation of the node being created")
+			case n == "(*getoptions.GetOpt).NewCommand" || strings.HasPrefix(n, "(*getoptions.GetOpt).HelpCommand"):
+				ru.Bad("writer/"+n, w.IPos(u.Instr), "requireOrder of an existing node is rewritten: a command's own SetRequireOrder (or its absence) is overridden")
+			default:
 				ru.Bad("writer/"+n, w.IPos(u.Instr), "unexpected writer of requireOrder")
 			}
 		default:
